@@ -347,7 +347,7 @@ class Extraction:
                             deleted_tok.add(x)
 
         # R-vis
-        if "R-vis" in self.rules:
+        if "R-vis" in self.rules and not entry.get("wrap_mod"):
             for i in idxs:
                 t = toks[i]
                 if i in deleted_tok:
@@ -357,6 +357,55 @@ class Extraction:
                     if toks[i + 1].text == "(" and toks[i + 2].text in ("crate", "super", "in", "self"):
                         end = toks[S.br[i + 1]].end
                     delete(t.start, end, "R-vis")
+
+        # R-pub (items placed in a wrapper module): every item and field becomes `pub`
+        if entry.get("wrap_mod"):
+            for i in idxs:
+                t = toks[i]
+                if i in deleted_tok:
+                    continue
+                if t.kind == "ident" and t.text == "pub":
+                    end = t.end
+                    if toks[i + 1].text == "(" and toks[i + 2].text in ("crate", "super", "in", "self"):
+                        end = toks[S.br[i + 1]].end
+                    edits.append((t.start, end, _blank(S.src[t.start:end])))
+            first = it.kw
+            while first - 1 >= it.lo and toks[first - 1].kind == "ident" and \
+                    toks[first - 1].text in ("async", "const", "unsafe", "extern", "default"):
+                first -= 1
+            is_trait_impl = bool(it.impl_header and re.search(r"\bfor\b", it.impl_header))
+            if not is_trait_impl:
+                insert(toks[first].start, "pub(crate) ")
+            if it.kind == "struct":
+                j = it.kw + 2
+                j = _skip_generics(S, j)
+                if toks[j].text in "({":
+                    close = S.br[j]
+                    k = j + 1
+                    expect_field = True
+                    while k < close:
+                        if k in deleted_tok:
+                            k += 1
+                            continue
+                        if expect_field and not (toks[k].kind == "ident" and toks[k].text == "pub"):
+                            if toks[k].text == "#":
+                                k = S.br[k + 1] + 1
+                                continue
+                            insert(toks[k].start, "pub(crate) ")
+                            expect_field = False
+                        elif expect_field:
+                            # skip the existing (blanked) pub
+                            k += 1
+                            if toks[k].text == "(" and toks[k + 1].text in ("crate", "super", "in", "self"):
+                                k = S.br[k] + 1
+                            insert(toks[k].start, "pub(crate) ")
+                            expect_field = False
+                        if toks[k].text in "([{<" and toks[k].text != "<":
+                            k = S.br[k]
+                        elif toks[k].text == ",":
+                            expect_field = True
+                        k += 1
+            self.count("R-pub", None)
 
         removed_spans = []
         if it.kind == "fn" and it.body_open is not None:
@@ -442,7 +491,12 @@ class Extraction:
 
         # splices
         if entry.get("splice"):
-            sp = Splice(os.path.join(self.unit_dir, "splices", entry["splice"] + ".vs"))
+            spn = entry["splice"]
+            if ":" in spn:
+                u, spn = spn.split(":", 1)
+                sp = Splice(os.path.join(os.path.dirname(self.unit_dir.rstrip("/")), u, "splices", spn + ".vs"))
+            else:
+                sp = Splice(os.path.join(self.unit_dir, "splices", spn + ".vs"))
             self._apply_splice(it, sp, insert, edits)
 
         # apply edits
@@ -685,7 +739,19 @@ class Extraction:
             self.chunks.append(("// ---- prelude %s (hand-written spec only)\n" % pre, None, None))
             self.chunks.append((open(p).read() + "\n", "PRELUDE:" + os.path.relpath(p, os.path.dirname(self.unit_dir)), 1))
         self.chunks.append(("// ---- extracted items\n", None, None))
+        tree = {}  # module path tuple -> list of chunk lists
+
+        def emit(entry, chunk_list):
+            wm = entry.get("wrap_mod")
+            if wm:
+                tree.setdefault(tuple(wm.split("::")), []).append(chunk_list)
+            else:
+                self.chunks.extend(chunk_list)
+
         for entry in self.spec.get("item", []):
+            if "raw" in entry:
+                emit(entry, [(entry["raw"].rstrip() + "\n", None, None)])
+                continue
             S = self.source(entry["file"])
             it = find_item(S, entry["select"], entry.get("mod"))
             rendered = self.render(it, entry)
@@ -695,18 +761,32 @@ class Extraction:
                        sha256=hashlib.sha256(raw.encode()).hexdigest()[:16],
                        contract=bool(entry.get("splice")))
             self.functions.append(rec)
-            self.chunks.append(("\n// from %s:%d  [%s]\n" % (entry["file"], rec["line"], entry["select"]), None, None))
+            cl = [("\n// from %s:%d  [%s]\n" % (entry["file"], rec["line"], entry["select"]), None, None)]
             if it.impl_header:
                 hdr = it.impl_header
                 if entry.get("impl_header"):
                     hdr = entry["impl_header"]
-                self.chunks.append((hdr + " {\n", None, None))
-            self.chunks.extend(rendered)
-            self.chunks.append(("\n", None, None))
+                cl.append((hdr + " {\n", None, None))
+            cl.extend(rendered)
+            cl.append(("\n", None, None))
             if it.impl_header:
-                self.chunks.append(("}\n", None, None))
+                cl.append(("}\n", None, None))
             if entry.get("derive_from") and it.kind == "enum":
-                self.chunks.append((self._derive_from(it), None, None))
+                cl.append((self._derive_from(it), None, None))
+            emit(entry, cl)
+
+        def emit_tree(prefix):
+            depth = len(prefix)
+            for cl in tree.get(prefix, []):
+                self.chunks.extend(cl)
+            children = sorted({p[depth] for p in tree if len(p) > depth and p[:depth] == prefix})
+            for c in children:
+                self.chunks.append(("pub mod %s {\n#[allow(unused_imports)] use super::*;\n" % c, None, None))
+                emit_tree(prefix + (c,))
+                self.chunks.append(("} // mod %s\n" % c, None, None))
+        if tree:
+            self.chunks.append(("\n// ---- items of other crates / modules, under their real paths (R-pub)\n", None, None))
+            emit_tree(())
         self.chunks.append(("\n} // verus!\nfn main() {}\n", None, None))
         return self
 
